@@ -287,7 +287,10 @@ pub fn worker_main(_args: &[String]) -> ! {
     let truth = if truth.is_empty() { None } else { Some(&truth) };
     let lim = libc::rlimit { rlim_cur: WORKER_AS_LIMIT, rlim_max: WORKER_AS_LIMIT };
     unsafe {
-        libc::setrlimit(libc::RLIMIT_AS, &lim);
+        // PV_C43_NO_RLIMIT: manual experiments only (what happens without an address-space limit)
+        if std::env::var("PV_C43_NO_RLIMIT").is_err() {
+            libc::setrlimit(libc::RLIMIT_AS, &lim);
+        }
         // no core dumps from allocation-failure aborts
         let z = libc::rlimit { rlim_cur: 0, rlim_max: 0 };
         libc::setrlimit(libc::RLIMIT_CORE, &z);
@@ -898,7 +901,7 @@ fn run_inner(s: &Session) {
     s.foreach("overwrite-offsets-mini", fam, false, ck);
 
     // 5. random combinations, all targets
-    s.forall("random-corruption", s.pick(1_200, 40_000), corrupt_case, ck);
+    s.forall("random-corruption", s.pick(1_200, 20_000), corrupt_case, ck);
 
     for need in ["fault:truncate-primary", "fault:truncate-secondary", "fault:truncate-chunk", "fault:missing-primary", "fault:empty-secondary",
         "fault:primary-offsets", "fault:secondary-offsets", "level:directory", "chunk::read_blocks:ok-then-err", "chunk::read_blocks:open-err"] {
